@@ -80,6 +80,8 @@ type PoolSpec struct {
 	Absent bool `json:"absent"`
 	// NotReady: NodeClassReady=False (pool known to disruption, ignored by the provisioner).
 	NotReady bool `json:"notReady,omitempty"`
+	// Ext: extras for C18 (x_frame.go): preferNoSchedule=<v> adds a PreferNoSchedule taint to the pool template.
+	Ext map[string]string `json:"ext,omitempty"`
 }
 
 type NodeSpec struct {
